@@ -792,6 +792,41 @@ class Selector(cssutils.util.Base2):
             # filter that only used ones are kept
             self.__namespaces = self._getUsedNamespaces()
 
+    def _comments_out_of_names(self, tokenizer):
+        """
+        Comments between the tokens which make up ONE simple selector
+        (":" IDENT, "." IDENT, prefix "|" name) are moved in front of it,
+        they do not split it.
+        """
+        IDENT, FUNCTION = self._prods.IDENT, self._prods.FUNCTION
+
+        def joined(a, b):
+            (at, av), (bt, bv) = a[:2], b[:2]
+            return (
+                (av == ':' and at == 'CHAR' and (bv == ':' or bt in (IDENT, FUNCTION)))
+                or (av == '.' and at == 'CHAR' and bt == IDENT)
+                or ((at == IDENT or av == '*') and bv == '|' and bt == 'CHAR')
+                or (av == '|' and at == 'CHAR' and (bt == IDENT or bv == '*'))
+            )
+
+        tokens = list(tokenizer)
+        out = []
+        i = 0
+        while i < len(tokens):
+            j = i
+            while j < len(tokens) and tokens[j][0] == 'COMMENT':
+                j += 1
+            if i < j < len(tokens) and out and joined(out[-1], tokens[j]):
+                start = len(out) - 1
+                while start > 0 and joined(out[start - 1], out[start]):
+                    start -= 1
+                out[start:start] = tokens[i:j]
+                i = j
+            else:
+                out.append(tokens[i])
+                i += 1
+        return out
+
     def _prepare_tokens(self, tokenizer):  # noqa: C901
         """
         "*" -> type "universal"
@@ -803,7 +838,7 @@ class Selector(cssutils.util.Base2):
         "::" + IDENT, "::" + FUNCTION -> pseudo-element
         """
         tokens = []
-        for t in tokenizer:
+        for t in self._comments_out_of_names(tokenizer):
             typ, val, lin, col = t
             if val == ':' and tokens and self._tokenvalue(tokens[-1]) == ':':
                 # combine ":" and ":"
